@@ -182,7 +182,7 @@ func c03XOR(c *Ctx, bufSize int64) {
 						if bad != "" {
 							break
 						}
-						w := &pathWalker{env: newEnv(), lengths: true, maxSteps: 60000}
+						w := &pathWalker{env: newEnv(), lengths: true, maxSteps: 60000, opaque: map[string]bool{"xorKeyStreamBlocks": true, "xorKeyStreamBlocksGeneric": true}}
 						w.env.bind(dstP, n+dd)
 						w.env.bind(srcP, n)
 						for _, v := range overlap {
